@@ -2,6 +2,7 @@ import Proofs.C08RoundTrip
 import Proofs.C08Stable
 import GoawkModel.C08Scan
 import Proofs.C08Chunk
+import Proofs.C08Spec
 /-!
 # C08 — CSV/TSV input follows RFC 4180; CSV output reads back to the same fields
 
@@ -141,12 +142,21 @@ theorem csv_stable (cfg : Cfg) (hs : validSep cfg.sep = true) (hc : 10 ∉ cfg.c
     0 < n ∧ n ≤ buf.length ∧ ∀ (x : Bytes) (e : Bool), csvScan cfg st (buf ++ x) e = .record n names fs t :=
   csvScan_record_stable cfg hs hc st buf n names fs t h
 
-/-- What is still correspondence-only on the input side: the scanner on the whole input equals the specification reader
-(`csv_fields_spec` / `csv_record_text` of the design). Together with `csv_chunk_independent` it would give
-"scanner under any delivery = specification reader". Stated, not proved. -/
-def FieldsSpec : Prop :=
-  ∀ (cfg : Cfg) (x : Bytes), validSep cfg.sep = true → 10 ∉ cfg.comment →
-    scanWhole cfg x = { names := csvHeader cfg x, recs := csvRecords cfg x }
+/-- **Fields and `$0` follow the RFC 4180 reader** (`csv_fields_spec` / `csv_record_text` of the design): the scanner on a
+whole input yields exactly the specification reader's header names, records, fields and `$0` values — the BOM ignored,
+comment and empty lines skipped, quoted fields with separators, doubled quotes and line breaks, lenient quotes, CRLF
+accepted, the final-`\r` rule, `$0` = the record's own bytes without the line terminator. -/
+theorem csv_fields_spec (cfg : Cfg) (hs : validSep cfg.sep = true) (x : Bytes) :
+    scanWhole cfg x = { names := csvHeader cfg x, recs := csvRecords cfg x } :=
+  scanWhole_eq_spec cfg hs x
+
+/-- **The input clause in one statement.** Under any delivery of the input bytes — any chunking, EOF reported separately
+or together with the last chunk — the program sees exactly the specification reader's records of the whole input. -/
+theorem csv_any_delivery_spec (cfg : Cfg) (hs : validSep cfg.sep = true) (hc : 10 ∉ cfg.comment) (eofWith : Bool)
+    (chunks : List Bytes) :
+    csvScanAll cfg eofWith chunks =
+      { names := csvHeader cfg chunks.flatten, recs := csvRecords cfg chunks.flatten } := by
+  rw [csvScanAll_eq_scanWhole cfg hs hc, scanWhole_eq_spec cfg hs]
 
 -- the former witness of G08-1 (repaired): header row and data row delivered in one `Read` that also returns `io.EOF`
 example : csvScanAll { sep := [44], header := true } true [[104, 44, 105, 10, 97, 44, 98, 10]] =
